@@ -31,7 +31,9 @@ RULE = (
     "non-trivial = >=1 application compared; distinct = (driver, scope "
     "kinds x positions, function info)."
     " 25% of the RewritingContext cases hand over the caller's own"
-    " Function objects after the function tables were dropped."
+    " Function objects after the function tables were dropped. 4% of the"
+    " modules hold a zero-sized code block (a scope that designates one"
+    " makes apply() raise: F51)."
 )
 ASSUMPTIONS = [
     "exit blocks are derived from the input listing's control flow (return, or a non-call edge leaving the function)",
